@@ -143,6 +143,24 @@ CLAIMED["C09"] = dict(
    technique="Coq proof (Coquelicot derivatives, MVT, algebra) + AST translator + extracted-model correspondence",
    design="DESIGN.md section 4, C09")
 
+CLAIMED["C17"] = dict(
+   text="Coq theorems over models whose guards and masks are regenerated from the source on every run: the exp / tanh / "
+        "sigmoid(logit) / Cauchy inverses return the library's domain error exactly outside their domain (open for exp "
+        "and tanh, closed [0,1] otherwise) and a value inside, forward passes and LogTanh accept every real; the sigmoid "
+        "inverse is finite at 0 and 1 thanks to its clamp; the four bounded splines reject exactly the complement of "
+        "the closed interval of the direction they run in (the interval itself being [left,right] forward and "
+        "[bottom,top] inverse); a value exactly on a tail bound is routed to the spline; and - axiom-free, for ANY "
+        "carrier of numbers and comparisons, hence for float32 and float64 and knots of ANY magnitude - every "
+        "accepted input receives a bin index in range (the repaired bin search only counts comparisons), which over "
+        "the reals is the bin containing the input. The extracted models are compared with the implementation "
+        "(values and exception classes); the search places inputs on, one ulp inside and one ulp outside every "
+        "boundary in both dtypes, for boxes / tail bounds up to 1e6, at different positions and batch sizes.",
+   note="Trusted: Coq kernel; Reals axioms for the real-number statements (the any-carrier index theorem is closed "
+        "under the global context); translator; extraction; harness. Finiteness of the float results on in-domain "
+        "inputs is established by the search only (rounding is not modelled).",
+   technique="Coq proof (guards over R, counting argument over any carrier) + AST translator + extracted-model correspondence",
+   design="DESIGN.md section 4, C17")
+
 def main():
     checks = []
     for pid in ALL:
